@@ -163,6 +163,32 @@ def run(ctx):
                     "error_statuses_seen": {str(k): v for k, v in codes.items()},
                     "recv_sizes": {str(k): v for k, v in sorted(recvs.items())}})
 
+    # "no input makes the parsing code hang": the gates are regexes run by a
+    # backtracking engine; a pattern can keep its language and still take
+    # super-linear time.  Pump every structural position of every call site and
+    # time the real code (child process: a running match holds the GIL).
+    from harness import hang_search
+    n_h, slow, hung = hang_search.search(total_timeout=90 if ctx.tier == "quick" else 300)
+    evaluations += n_h
+    for site, hx, dt in slow[:3]:
+        data = bytes.fromhex(hx)
+        ctx.report("slow:%s:%s" % (site, hashlib.sha1(data).hexdigest()[:10]),
+                   "C06: the real %s call site took %.2f s on a %d-byte input (budget %.1f s): super-linear matching time"
+                   % (site, dt, len(data), hang_search.PER_INPUT_BUDGET),
+                   {"kind": "hang", "site": site, "input_hex": hx if len(hx) < 20000 else hx[:200] + "...", "input_len": len(data),
+                    "input_shape": repr(data[:40]) + " ... " + repr(data[-12:]), "seconds": dt, "failing_input_found": True})
+    if hung:
+        site, hx = hung
+        data = bytes.fromhex(hx)
+        ctx.report("hang:%s:%s" % (site, hashlib.sha1(data).hexdigest()[:10]),
+                   "C06: the real %s call site did not return on a %d-byte input within the search's time limit" % (site, len(data)),
+                   {"kind": "hang", "site": site, "input_hex": hx if len(hx) < 20000 else hx[:200] + "...", "input_len": len(data),
+                    "input_shape": repr(data[:40]) + " ... " + repr(data[-12:]), "failing_input_found": True})
+    ctx.oblige("hang search: every pumped input returns from the real call sites within %.1f s (%d inputs up to 8 KiB)"
+               % (hang_search.PER_INPUT_BUDGET, n_h), not slow and not hung,
+               "" if not slow and not hung else "%d slow, hung=%r" % (len(slow), bool(hung)))
+    samples.append({"suite": "hang-search", "inputs": n_h, "slow": len(slow), "hung": bool(hung)})
+
     if not props_ok and not ctx.violations:
         ctx.report("c06-proof-broken", "Props/C06.v no longer checks (%s); the search found no failing stream" % failing,
                    {"failing_input_found": False, "broken": "Props/C06.v via %s" % failing, "log_tail": (log or "")[-1500:]})
@@ -177,6 +203,11 @@ def run(ctx):
 
 
 def replay(data):
+    if data.get("kind") == "hang":
+        from harness import hang_search
+        n, slow, hung = hang_search.search(120)
+        print("hang search now: %d inputs, %d slow, hung=%r" % (n, len(slow), hung and hung[0]))
+        return 1 if slow or hung else 0
     if data.get("kind") == "k-chanseq":
         ctx = vcommon.Ctx("C06", "quick", 0)
         runner = ctx.runner("parser", "ExtParser.v")
